@@ -307,3 +307,27 @@ class Lock:
     def __exit__(self, *a):
         fcntl.flock(self.f, fcntl.LOCK_UN)
         self.f.close()
+
+
+# ---------------------------------------------------------------- misc helpers
+
+def build_cli(ctx):
+    """Build the real gnark-mbu binary from /repo's current tree into the scratch dir."""
+    out = os.path.join(ctx.scratchdir(), 'gnark-mbu')
+    if not os.path.exists(out):
+        p = run(['go', 'build', '-o', out, '.'], cwd='/repo')
+        if p.returncode != 0:
+            raise TieBroken('cli-build', (p.stderr or p.stdout)[-2000:])
+    return out
+
+
+def regen_facts():
+    """T-facts: regenerate Smtb/Gen/Facts.lean from the current tree."""
+    p = run([os.path.join(HBIN, 'xtool'), 'facts'])
+    if p.returncode != 0:
+        raise TieBroken('T-facts', 'xtool facts failed: ' + p.stderr[-1000:])
+    path = os.path.join(LEAN, 'Smtb', 'Gen', 'Facts.lean')
+    old = open(path).read() if os.path.exists(path) else None
+    if old != p.stdout:
+        open(path, 'w').write(p.stdout)
+    return p.stdout
